@@ -46,11 +46,11 @@ PROFILES = {
     "quick": dict(
         design=[("cc_lock2.cfg", True), ("cc_lock3.cfg", True),
                 ("cc_nolock_sync.cfg", False), ("cc_nolock_unavail.cfg", False), ("cc_nolock_cmc.cfg", False)],
-        bfs=[("bfs_c1.cfg", 1, 600), ("bfs_c1r.cfg", 1, 300), ("bfs_c2w.cfg", 2, 500)], gen=[("sim_c2.cfg", 2, 100), ("sim_c3.cfg", 3, 100)], limit=2700),
+        bfs=[("bfs_c1.cfg", 1, 600), ("bfs_c1r.cfg", 1, 300), ("bfs_c1i.cfg", 1, 150), ("bfs_c2w.cfg", 2, 500)], gen=[("sim_c2.cfg", 2, 100), ("sim_c3.cfg", 3, 100)], limit=2900),
     "thorough": dict(
         design=[("cc_lock2.cfg", True), ("cc_lock3.cfg", True), ("cc_lock3_t.cfg", True),
                 ("cc_nolock_sync.cfg", False), ("cc_nolock_unavail.cfg", False), ("cc_nolock_cmc.cfg", False)],
-        bfs=[("bfs_c1.cfg", 1, 12000), ("bfs_c1r.cfg", 1, None), ("bfs_c2w.cfg", 2, 8000)], gen=[("sim_c2.cfg", 2, 2500), ("sim_c3.cfg", 3, 2500)], limit=45000),
+        bfs=[("bfs_c1.cfg", 1, 12000), ("bfs_c1r.cfg", 1, None), ("bfs_c1i.cfg", 1, None), ("bfs_c2w.cfg", 2, 8000)], gen=[("sim_c2.cfg", 2, 2500), ("sim_c3.cfg", 3, 2500)], limit=45000),
 }
 OBS_RE = re.compile(r'<<(\d+), "(\w+)", "([^"]*)", (-?\d+)>>')
 
@@ -132,7 +132,8 @@ def run(c, a):
             s["burst"] = 3 + i % 3
             # every other schedule also has background calls racing with the changes (not with a wedged session around:
             # once it is the only one registered a racing call would just sit out its deadline)
-            s["bg"] = i % 2 == 1 and not any(x.get("w") for x in s["cmds"])
+            s["idle"] = any(x["a"] == "Idle" for x in s["cmds"])
+            s["bg"] = i % 2 == 1 and not any(x.get("w") for x in s["cmds"]) and not s["idle"]
         c.coverage["behaviour_sets"] = sets
     binpath = c.go_test_build("transport/mux", HARNESS, name="clientconn")
     nshard = min(NCPU, max(1, len(scheds) // 20))
